@@ -512,9 +512,45 @@ def oddsize_history(seed, res):
             res.outcome(('oddsize', tag))
 
 
+SWEEP_PARTS = 8
+
+
+def address_sweep(seed, part, res):
+    """One cart, a chain of writes that visits EVERY address: a 1-byte write at each address of this part's stripe (the
+    written byte differs from what is there), a 5-byte write at every 3rd address, and a 600-byte write at every 257th -
+    interior addresses are not represented by the boundary neighbourhoods alone."""
+    mem = initial(seed, 0)
+    g = make_game(mem)
+    model = bytes(mem)
+    n = 0
+    for a in range(part, TOTAL, SWEEP_PARTS):
+        for ln in ((1,) + ((5,) if a % 3 == 0 else ()) + ((600,) if a % 257 == 0 else ())):
+            if a + ln > TOTAL:
+                continue
+            res.evaluations += 1
+            pat = bytes((model[i] ^ 0x5a ^ (n & 0xff) or 1) & 0xff if a <= i < a + ln else 0 for i in range(a, a + ln))
+            pattern = bytes(a) + pat          # apply_and_check takes data = pattern[s:e]
+            ok, model = apply_and_check(g, model, a, a + ln, pattern, res, [])
+            n += 1
+            if not ok:
+                for sig in list(res.violations):
+                    if not sig.startswith(('C18|sweep', 'C18|twins', 'C18|loaded', 'C18|alias', 'C18|after', 'C18|oddsize')):
+                        v = res.violations.pop(sig)
+                        res.violations['C18|sweep|%s|region=%s' % (sig.split('|')[1], region_of(a))] = (
+                            v[0] + ' [address sweep, write of %d byte(s) at %#x]' % (ln, a), {'sweep': part, 'addr': a, 'len': ln}, v[2])
+                return
+    res.nontriv(('sweep', part))
+    res.count('sweep_writes', n)
+    res.outcome(('sweep',))
+
+
+def region_of(a):
+    return next((n for n, lo, hi in REGIONS if lo <= a < hi), 'none')
+
+
 def shards(tier, seed):
     depth, deltas = plan(tier)
-    return [(tier, seed, init, i) for init in (0, 1) for i in range(len(WRITES[deltas[0]]))] + [('replace', seed), ('alias', seed), ('loaded', seed), ('twins', seed), ('oddsize', seed)]
+    return [(tier, seed, init, i) for init in (0, 1) for i in range(len(WRITES[deltas[0]]))] + [('replace', seed), ('alias', seed), ('loaded', seed), ('twins', seed), ('oddsize', seed)] + [('sweep', seed, k) for k in range(SWEEP_PARTS)]
 
 
 def run_shard(item):
@@ -522,6 +558,12 @@ def run_shard(item):
         res = ShardResult()
         replace_history(item[1], res)
         res.sample({'history': 'write x6; replace section object(s); write x6; ... on one Game'})
+        return res
+    if item[0] == 'sweep':
+        res = ShardResult()
+        address_sweep(item[1], item[2], res)
+        if item[2] == 0:
+            res.sample({'history': 'a 1-byte write at every address 0..0x42ff (8 stripes), 5-byte writes at every 3rd, 600-byte writes at every 257th'})
         return res
     if item[0] == 'oddsize':
         res = ShardResult()
@@ -559,6 +601,9 @@ def replay(case):
     if 'replace' in case:
         replace_history(0, res)
         return [(s, v[0]) for s, v in res.violations.items()]
+    if 'sweep' in case:
+        address_sweep(0, case['sweep'], res)
+        return [(s_, v[0]) for s_, v in res.violations.items()]
     if 'oddsize' in case:
         oddsize_history(0, res)
         return [(s_, v[0]) for s_, v in res.violations.items()]
